@@ -5,7 +5,7 @@ import os
 import shutil
 from pathlib import Path
 
-from vlib import conclude, enc_list, fresh_dir
+from vlib import conclude, enc_list, fresh_dir, VERIF
 import realcode
 from realcode import BinaryState, RefLoop, PassResult
 
@@ -125,10 +125,16 @@ def make_pass(name):
     if name == 'line_markers':
         from cvise.passes.line_markers import LineMarkersPass
         return LineMarkersPass(None, {})
+    if name == 'gcda':
+        # instances = the functions `gcov-dump -p` reports (scripted stand-in: one record line per function)
+        from cvise.passes.gcdabinary import GCDABinaryPass
+        return GCDABinaryPass('None', {'gcov-dump': str(VERIF / 'tools' / 'standins' / 'gcov-dump')})
     raise KeyError(name)
 
 
 def item_text(name, i):
+    if name == 'gcda':
+        return f'F{i}:payload-{i}-{"x" * (i % 3)}\n'
     return f'L{i};\n' if name == 'lines' else f'# {i + 1} "f{i}.h"\n'
 
 
@@ -139,6 +145,8 @@ def build_file(name, n):
     """returns (text, item lines)"""
     if name == 'lines':
         text = ''.join(item_text(name, i) for i in range(n))
+    elif name == 'gcda':
+        return 'HDR toy coverage file\n' + ''.join(item_text(name, i) for i in range(n))
     else:
         parts = ['int keep0;\n']
         for i in range(n):
@@ -179,7 +187,12 @@ def run_pass_case(ctx, name, n, test_items, wd):
         rec['items_after'] = its
         rec['items_before'] = items_of(name, n, rec['before'].decode())
     loop.on_candidate = on_cand
-    loop.run()
+    loop.raised = None
+    try:
+        loop.run()
+    except Exception as e:  # noqa: BLE001 — a pass method that raises on a cursor the driver reaches
+        import traceback
+        loop.raised = f'{type(e).__name__}: {e} @ ' + ' < '.join(f'{f.name}:{f.lineno}' for f in reversed(traceback.extract_tb(e.__traceback__)[-3:]))
     final = items_of(name, n, path.read_text())
     final_text = path.read_text()
     shutil.rmtree(d, ignore_errors=True)
@@ -190,6 +203,9 @@ def judge_pass_case(ctx, name, n, label, loop, final, final_text, required, test
     scen = {'kind': 'pass', 'pass': name, 'n': n, 'test': label, 'final_newline': FINAL_NEWLINE[0]}
     if loop.timed_out:
         ctx.report('no-termination', f'{name} did not finish within {loop.max_steps} candidates', scen)
+        return
+    if getattr(loop, 'raised', None):
+        ctx.report('pass-raises-on-a-reachable-cursor', f'{name}: {loop.raised}'[:380], scen)
         return
     accepted_any = any(r['accepted'] for r in loop.trace)
     for r in loop.trace:
@@ -244,9 +260,9 @@ def hash_pred(seed, density):
 def part_passes(ctx, diffs, deep=False):
     nmax = (7 if ctx.tier == 'quick' else 10) + (1 if deep else 0)
     lines, reals, scens = [], [], []
-    for name, nl in (('lines', True), ('line_markers', True), ('lines', False), ('line_markers', False)):
+    for name, nl in (('lines', True), ('line_markers', True), ('lines', False), ('line_markers', False), ('gcda', True)):
         FINAL_NEWLINE[0] = nl
-        for n in range(0, (nmax if nl else 5) + 1):
+        for n in range(0, (nmax if nl and name != 'gcda' else 5) + 1):
             for mask in range(1 << n):
                 req = [i for i in range(n) if mask >> i & 1]
                 ti = (lambda its, req=req: all(r in its for r in req))
@@ -255,11 +271,15 @@ def part_passes(ctx, diffs, deep=False):
                 judge_pass_case(ctx, name, n, {'required': req}, loop, final, ftxt, req, ti)
                 if 0 < len(req) < n:
                     ctx.nontrivial(('req', name, n, mask))
+                if name == 'gcda':
+                    continue      # restarts from scratch after every accepted removal: not the generic run of the model, judged directly
                 lines.append(f'binrun {n} {enc_list(req)}')
                 reals.append(trace_str(loop, final))
                 scens.append({'kind': 'pass', 'pass': name, 'n': n, 'required': req, 'final_newline': nl})
         if not nl:
             FINAL_NEWLINE[0] = True
+            continue
+        if name == 'gcda':
             continue
         # arbitrary (non-monotone) deterministic predicates
         for k in range(60 if ctx.tier == 'quick' else 600):
